@@ -267,6 +267,18 @@ def translate_in(s, newline):
 
 
 # ------------------------------------------------------------------------------------------------ the model
+_EMPTY = b""
+
+
+def _cat(a, b):
+    """a + b without building a new (symbolic) sequence when one side is the empty constant"""
+    if a is _EMPTY:
+        return b
+    if b is _EMPTY:
+        return a
+    return a + b
+
+
 class Inode:
     __slots__ = ("data", "mtime", "ino")
 
@@ -406,11 +418,11 @@ class ModelFS:
         if core == "x" and ent is not None:
             raise FileExistsError(17, "File exists (model)", path)
         if ent is None:
-            ino = self.put(path, b"")
+            ino = self.put(path, _EMPTY)
         else:
             ino = ent[1]
             if core == "w":
-                ino.data, ino.mtime = b"", self.now()
+                ino.data, ino.mtime = _EMPTY, self.now()
         return WFile(self, ino, path, binary, enc, newline)
 
     def replace(self, src, dst):
@@ -472,7 +484,7 @@ class WFile:
         self.fs, self.ino, self.name, self.binary, self.encoding, self.newline = fs, ino, path, binary, encoding, newline
         self.mode = "wb" if binary else "w"
         self.closed = False
-        self.pending = b""
+        self.pending = _EMPTY
         self.first = True  # utf-16: BOM goes out with the first write() call
         self.wrote = False  # a write() call happened since the last flush
 
@@ -486,9 +498,9 @@ class WFile:
         # (no test for "nothing buffered": a test on a symbolic length would double the paths; the only difference is
         #  that a flush after write(b"") stamps the mtime, which can matter for append-mode writers only)
         if self.wrote:
-            self.ino.data = self.ino.data + self.pending
+            self.ino.data = _cat(self.ino.data, self.pending)
             self.ino.mtime = self.fs.now()
-            self.pending = b""
+            self.pending = _EMPTY
             self.wrote = False
 
     def write(self, s):
@@ -509,7 +521,7 @@ class WFile:
         self.fs.op("write", self.name)
         self.first = False
         self.wrote = True
-        self.pending = self.pending + data
+        self.pending = _cat(self.pending, data)
         if self.fs.eager:
             self._commit()
         return len(s)
@@ -570,7 +582,7 @@ class RFile:
             raise ValueError("I/O operation on closed file.")
         c = self._content()
         if n is None or n < 0:
-            out = c[self.pos:]
+            out = c if self.pos == 0 else c[self.pos:]  # (no slice of a symbolic value when nothing was consumed)
             self.pos = len(c)
         else:
             out = c[self.pos:self.pos + n]
